@@ -14,6 +14,22 @@ Definition cpath (sep pp name : string) : string :=
   if String.eqb name "" then ""
   else if String.eqb pp "" then name else pp +++ sep +++ name.
 
+(* no references: every setting is there to be listed (a node may hold named settings and a
+   list part at once) *)
+Fixpoint static (v : value) : bool :=
+  match v with
+  | VRef _ _ | VSplice _ => false
+  | VSub d a =>
+    (fix gd (l : list (string * (string * value))) : bool :=
+       match l with [] => true | (_, (_, x)) :: r => static x && gd r end) d
+    && match a with
+       | None => true
+       | Some l => (fix ga (l : list (string * value)) : bool :=
+                      match l with [] => true | (_, x) :: r => static x && ga r end) l
+       end
+  | _ => true
+  end.
+
 (** FlattenedKeys: the paths (from stored names) of the values that are not configs; a node
     is walked through its dictionary and through its list. *)
 Fixpoint flat_keys (sep pp : string) (v : value) {struct v} : res (list string) :=
